@@ -249,12 +249,24 @@ func runRPC(t *testing.T, rc *core.RunCtx, prop string) {
 			nmNames := nm.StateNames()
 			nm.BindTracer(&rpcTracer{TracerNoOp: &am.TracerNoOp{Id: "nm"}, end: func(tx *am.Transition) {
 				p := proj(tx.TimeAfter, nmNames)
-				s.Logf("mirror ->%s (all: %v)", p, tx.TimeAfter)
+				s.Logf("mirror ->%s (all: %v) q%d", p, tx.TimeAfter, nm.QueueTick())
 				found := -1
 				for i := mirrorPos; i < len(hist); i++ {
 					if proj(hist[i].tm, srcNames) == p {
 						found = i
 						break
+					}
+				}
+				// C10: "together with the right queue tick" - the mirror's queue
+				// tick is the one the source had in some snapshot with these clocks
+				if found >= 0 && prop == "C10" {
+					okq := false
+					for i := found; i < len(hist); i++ {
+						okq = okq || (hist[i].qt == nm.QueueTick() && proj(hist[i].tm, srcNames) == p)
+					}
+					if !okq {
+						s.Fail(prop+"/queue-tick/"+ctxKey(), "the network machine shows clock%s with queue tick %d; the source never had these clocks with that queue tick at or after snapshot #%d (there: queue tick %d)", p, nm.QueueTick(), found, hist[found].qt)
+						return
 					}
 				}
 				if found < 0 {
